@@ -111,7 +111,7 @@ type lenInv struct {
 
 type linProver struct {
 	p       *Prog
-	hyp     []lin                   // induction hypotheses in force
+	hyp     []lin                  // induction hypotheses in force
 	paramNN map[*ssa.Parameter]int // 0 unknown, 1 non-negative at all call sites, 2 not
 	invs    []lenInv
 	facts   map[*ssa.BasicBlock][]lin // constraints L <= 0
